@@ -2,7 +2,9 @@
 
 Code under test: `iter_utils.rebatched_args` (+ `_concat`, `_pad`, `_batch_size`) called
 directly and through `TreeFn._iterate` (`TreeTransform.apply(fn_batch_size=, batch_size=)`,
-`.select(..., batch_size=)`, `.batch(n)`).
+`.select(..., batch_size=)`, `.batch(n)`), also with several fn outputs into one output
+key and inside `TreeTransform.new(num_threads=)` pipelines; `iter_utils.iterate_fn`
+(row-wise adapter, alignment clause).
 
 Oracle: plain Python. Every cell of every column carries a unique id
 (value = 100000 * column + global row index), so the expected output of a re-batching
@@ -36,7 +38,23 @@ RULE = (
     'modes), random sequences to length 40 / sizes to 50. non-trivial = >= 2 '
     'input batches and some size != target; distinct = (api, size sequence, target) '
     '(column/kind/pad/infer variants of one (sequence, target) are counted as '
-    'evaluations, not as distinct cases)')
+    'evaluations, not as distinct cases). Widened input classes: (multi_out) apply() '
+    'whose fn returns 2..4 columns that all go to ONE output key - the default SELF or '
+    'one named key - as pure selection (no fn), one output per input, or one input '
+    'fanned out, over all size sequences of length <= 3 over sizes 0..3 x {list, tuple, '
+    'ndarray} x fn_batch_size {0,2,3} x batch_size {0..4} plus random longer streams; '
+    'batch_size=0 is the same pipeline without re-batching and is checked against the '
+    'same id oracle. (threaded) TreeTransform.new(num_threads=T in 1..3) over a plain '
+    'list / iterator / generator, apply(cb).batch(n) over rows 0..9 x n 1..4 and '
+    'apply(cb, batch_size=n) over batch-size sequences, cb synchronised per round of T '
+    'items by a barrier (or a 2 ms sleep) so that T workers take part; not bit-exact on '
+    'replay: which worker pulls which item and the emission order across workers are '
+    'up to the scheduler, the per-worker item counts are forced by the barriers. '
+    '(iterate_fn) iter_utils.iterate_fn(fn, multithread=True|False) called directly, '
+    'with kwargs, or inside assign(), 1-2 input columns, 1-2 outputs, 1..8 rows, per-row '
+    'sleeps of rank x 2-3 ms in shuffled / reversed / increasing order. Mechanism keys '
+    'of these classes are given by input class AND symptom (see the MECH_* constants); '
+    'every other failure of such a case gets a key of its own')
 ASSUMPTIONS = [
     'the stream is passed as an iterator (the signature says Iterator; a list is '
     'double-counted by the num_columns inference and is not generated)',
@@ -57,12 +75,32 @@ ASSUMPTIONS = [
     'contract); batch_size=0 means pass-through',
     'Assign (assign(..., batch_size=)) is not exercised: its outputs are zipped with the '
     'input batches and therefore must keep the input partition',
+    'several fn outputs into one output key (multi_out): the fn returns an exact tuple '
+    'of >= 2 equal-length columns (the documented multiple-return convention, so the '
+    'single-tuple-output ambiguity does not arise); the output key is the default SELF '
+    'or one named key; the pipeline without batch_size yields the tuple of columns (under '
+    'that key), and with batch_size the demand is that same tuple of columns, every '
+    'column re-batched to the target; fn_batch_size > 0 only with a fn and batch_size > 0',
+    'threaded re-batching: num_threads in 1..3, the source is a plain list / iterator / '
+    'generator (not shardable), batch sizes >= 1, input batches of apply(batch_size=) '
+    'have >= 1 row; demanded are only: every emitted batch but the last has exactly n '
+    'rows, the last has 1..n rows, and the rows are conserved as a multiset - the order '
+    'of rows across worker threads is NOT demanded; the user callback only waits for '
+    'the other items of its round (barrier with a 0.3 s timeout that switches itself off) '
+    'or sleeps 2 ms, it never reorders or drops anything',
+    'iterate_fn: the per-row fn is pure apart from time.sleep; its result must be '
+    'independent of multithread=; >= 1 row (an empty batch with a 2-output fn cannot be '
+    'transposed and is not generated)',
 ]
 REQUIRED = ['direct_checks', 'concat_checks', 'size_checks', 'alignment_checks',
             'pad_checks', 'infer_checks', 'given_columns_checks',
             'empty_stream_checks', 'zero_size_batch_checks', 'passthrough_checks',
             'apply_checks', 'fn_batch_checks', 'select_checks', 'batch_checks', 'rowchange_checks',
-            'input_unchanged_checks', 'ragged_checks', 'ragged_rejected']
+            'input_unchanged_checks', 'ragged_checks', 'ragged_rejected',
+            'multi_output_checks', 'multi_output_rebatch_checks', 'threaded_checks',
+            'threaded_multi_worker_checks', 'threaded_two_workers_seen',
+            'iterate_fn_checks', 'iterate_fn_multithread_checks',
+            'iterate_fn_inverted_completion_checks']
 EXHAUSTIVE = {'quick': True, 'thorough': True}
 CHUNK_TIMEOUT_S = {'quick': 240, 'thorough': 3000}
 
@@ -637,6 +675,427 @@ def _run_pipe_random(ctx, cnt, spec):
     check_pipeline(ctx, cnt, case)
 
 
+
+# ---------------------------------------------------------------------------
+# Several fn outputs into ONE output key (the default SELF, or one named key)
+# ---------------------------------------------------------------------------
+
+MECH_MULTI_SELF = 'rebatch-multi-output-into-self-key'
+MECH_MULTI_ONEKEY = 'rebatch-multi-output-into-one-output-key'
+MECH_THREADS = 'threaded-batch-private-rebatch-buffers'
+MECH_ITERATE_FN = 'iterate-fn-multithread-completion-order'
+KEEP_WITNESSES = 3
+
+
+def _violation(ctx, kind, case, detail, mech):
+  """Counts every violation per mechanism; keeps the first few as witnesses."""
+  key = 'viol:' + str(mech)
+  seen = ctx.counters.get(key, 0)
+  ctx.count(key)
+  if seen < KEEP_WITNESSES:
+    ctx.violation(kind, case, detail, mechanism=mech)
+
+
+def _shift(col, d):
+  import numpy as np
+  if isinstance(col, np.ndarray):
+    return col + d
+  if type(col) is tuple:
+    return tuple(v + d for v in col)
+  return [v + d for v in col]
+
+
+def check_multi_out(ctx, cnt, case):
+  """apply(...) whose fn returns nout >= 2 columns that all go to one output key.
+
+  case: sizes, kind, cin (input columns), nout, fnkind in {'select' (no fn, the
+  inputs are the outputs), 'map' (one output per input), 'fanout' (one input,
+  nout outputs)}, out in {'self' (default output key), 'onekey' (output_keys='c')},
+  a (fn_batch_size), b (batch_size; 0 = the pipeline without re-batching).
+  Oracle: output column j carries the ids M*j + row (+ OFFSET when a fn ran), so
+  the expected stream is the id lists cut by plain Python into _chunks(N, b).
+  """
+  from ml_metrics._src.chainables import transform
+  sizes, kind, cin, nout = case['sizes'], case['kind'], case['cin'], case['nout']
+  fnkind, out_mode, a, b = case['fnkind'], case['out'], case['a'], case['b']
+  n = sum(sizes)
+  ctx.case(('multi_out', tuple(sizes), kind, cin, nout, fnkind, out_mode, a, b),
+           len(sizes) >= 2 and any(s != (b or a) for s in sizes))
+  batches = _mk_batches(sizes, cin, kind)
+  in_keys = tuple(f'k{c}' for c in range(cin))
+  stream = [dict(zip(in_keys, bt), zz=list(range(len(bt[0])))) for bt in batches]
+  calls = []
+  offset = 0 if fnkind == 'select' else OFFSET
+  kwargs = {'input_keys': in_keys if (cin > 1 or not case.get('scalar_keys'))
+                          else in_keys[0],
+            'fn_batch_size': a, 'batch_size': b}
+  if fnkind == 'map':
+    def fn(*columns):
+      calls.append([len(c) for c in columns])
+      return tuple(_add_offset(c) for c in columns)
+    kwargs['fn'] = fn
+  elif fnkind == 'fanout':
+    def fn(column):
+      calls.append([len(column)])
+      return tuple(_shift(column, OFFSET + M * j) for j in range(nout))
+    kwargs['fn'] = fn
+  if out_mode == 'onekey':
+    kwargs['output_keys'] = 'c'
+  in_class = b > 0 and nout >= 2      # re-batching of several outputs to one key
+  generic = f'multi-out-{out_mode}:'
+  cnt.add('multi_output_checks')
+  if in_class:
+    cnt.add('multi_output_rebatch_checks')
+  try:
+    t = transform.TreeTransform().apply(**kwargs)
+    out = list(t.make().iterate(iter(stream)))
+  except Exception as e:  # pylint: disable=broad-exception-caught
+    msg = f'{type(e).__name__}: {e}'
+    mech = generic + 'raised'
+    if in_class and out_mode == 'onekey' and 'Mismatched columns' in msg:
+      mech = MECH_MULTI_ONEKEY
+    _violation(ctx, 'raised', case, {'error': msg[:400]}, mech)
+    return
+  fn_sizes = _chunks(n, a) if a else list(sizes)
+  if fnkind != 'select':
+    cnt.add('fn_batch_checks')
+    want_calls = [[s] * cin for s in fn_sizes]
+    if calls != want_calls:
+      _violation(ctx, 'fn_batch_sizes', case,
+                 {'got': calls[:30], 'want': want_calls[:30]}, generic + 'fn_batch_sizes')
+      return
+  if b:
+    sizes_out = _chunks(n, b)
+  else:
+    cnt.add('passthrough_checks')
+    sizes_out = fn_sizes
+  try:
+    if out_mode == 'onekey':
+      for o in out:
+        if not isinstance(o, dict) or list(o.keys()) != ['c']:
+          _violation(ctx, 'output_keys', case, {'got': repr(o)[:200]},
+                     generic + 'output_keys')
+          return
+      out = [o['c'] for o in out]
+    got = [[_tolist(c) for c in o] for o in out]
+    shape_ok = all(type(o) is tuple for o in out)
+  except Exception as e:  # pylint: disable=broad-exception-caught
+    _violation(ctx, 'bad_output_container', case,
+               {'error': repr(e)[:200], 'out': repr(out)[:300]},
+               generic + 'bad_output_container')
+    return
+  cnt.add('concat_checks')
+  cnt.add('size_checks')
+  cnt.add('alignment_checks')
+  if shape_ok and got == _expected(sizes_out, nout, 'list', None, b, offset):
+    return
+  kind_, detail = _diagnose(got, sizes_out, nout, 'list', None, b or 1, offset)
+  mech = generic + kind_
+  if in_class and out_mode == 'self':
+    # The audited symptom: the emitted "batches" are the fn output COLUMNS, whole
+    # and in call order, grouped b at a time (columns were re-batched as rows).
+    col_seq = []
+    pos = 0
+    for sz in fn_sizes:
+      col_seq.extend(list(range(M * j + pos + offset, M * j + pos + sz + offset))
+                     for j in range(nout))
+      pos += sz
+    as_rows = [col_seq[i:i + b] for i in range(0, len(col_seq), b)]
+    if got == as_rows:
+      mech = MECH_MULTI_SELF
+      detail = dict(detail, clause=kind_,
+                    note='every emitted element is a whole fn output column')
+      kind_ = 'columns_rebatched_as_rows'
+  detail = dict(detail, got=repr(got)[:300],
+                want=repr(_expected(sizes_out, nout, 'list', None, b, offset))[:300])
+  _violation(ctx, kind_, case, detail, mech)
+
+
+_MULTI_VARIANTS = (
+    # fnkind, cin, nout, out
+    ('select', 2, 2, 'self'), ('select', 3, 3, 'self'), ('map', 2, 2, 'self'),
+    ('fanout', 1, 2, 'self'), ('fanout', 1, 3, 'self'),
+    ('map', 2, 2, 'onekey'), ('fanout', 1, 2, 'onekey'),
+)
+_MULTI_AB = [(a, b) for a in (0, 2, 3) for b in (0, 1, 2, 3, 4) if not (a and not b)]
+
+
+def _run_multi_sweep(ctx, cnt, spec):
+  smax, maxlen, prefix = spec['smax'], spec['maxlen'], spec['prefix']
+  seqs = []
+  if prefix is None:
+    seqs.append([])
+  else:
+    for length in range(len(prefix), maxlen + 1):
+      for tail in itertools.product(range(smax + 1), repeat=length - len(prefix)):
+        seqs.append(list(prefix) + list(tail))
+  for sizes in seqs:
+    for kind in KINDS:
+      for fnkind, cin, nout, out in _MULTI_VARIANTS:
+        for a, b in _MULTI_AB:
+          if a and fnkind == 'select':
+            continue
+          check_multi_out(ctx, cnt, {
+              'api': 'multi_out', 'sizes': sizes, 'kind': kind, 'cin': cin,
+              'nout': nout, 'fnkind': fnkind, 'out': out, 'a': a, 'b': b,
+              'scalar_keys': (a + b) % 2 == 0})
+
+
+def _run_multi_random(ctx, cnt, spec):
+  rng = random.Random(spec['rseed'] * 15485863 + spec['index'] * 32452843 + 11)
+  big = spec['tier'] == 'thorough'
+  for _ in range(spec['count']):
+    length = rng.choice([rng.randint(0, 6), rng.randint(0, 40 if big else 12)])
+    smax = rng.choice([3, 8, 50 if big else 16])
+    zero_p = rng.choice([0.0, 0.15, 0.4])
+    sizes = [0 if rng.random() < zero_p else rng.randint(0, smax)
+             for _ in range(length)]
+    fnkind = rng.choice(['select', 'map', 'fanout'])
+    nout = rng.randint(2, 4)
+    a = 0 if fnkind == 'select' else rng.choice([0, 0, 1, 2, 3, 5, 8, 17])
+    b = rng.choice([1, 2, 3, 4, 7, 16, 33] + ([0] if not a else []))
+    check_multi_out(ctx, cnt, {
+        'api': 'multi_out', 'sizes': sizes,
+        'kind': rng.choice(['list', 'tuple', 'array', 'mixed']),
+        'cin': 1 if fnkind == 'fanout' else nout, 'nout': nout, 'fnkind': fnkind,
+        'out': 'self' if (fnkind == 'select' or rng.random() < 0.7) else 'onekey',
+        'a': a, 'b': b, 'scalar_keys': rng.random() < 0.5})
+
+
+# ---------------------------------------------------------------------------
+# Re-batching inside a threaded pipeline over a plain (non-shardable) iterable
+# ---------------------------------------------------------------------------
+
+
+class _Rounds:
+  """Makes `threads` workers take part: item i waits for the others of its round.
+
+  Items are grouped in rounds of `threads` consecutive items; the callback of an
+  item waits on a barrier until every item of its round is in flight, which needs
+  as many workers as the round has items. A barrier that times out switches the
+  synchronisation off for the rest of the case (a pipeline that calls the fn from
+  fewer threads is legal). 'sleep' only yields the CPU for a moment.
+  """
+
+  def __init__(self, sync, threads, total):
+    import threading
+    self.sync, self.off = sync, False
+    self.workers = set()
+    self.barriers = []
+    if sync == 'barrier':
+      for start in range(0, total, threads):
+        self.barriers.append(threading.Barrier(min(threads, total - start)))
+    self.threads = threads
+
+  def __call__(self, i):
+    import threading
+    import time
+    self.workers.add(threading.get_ident())
+    if self.sync == 'sleep':
+      time.sleep(0.002)
+    elif self.sync == 'barrier' and not self.off:
+      try:
+        self.barriers[i // self.threads].wait(timeout=0.3)
+      except threading.BrokenBarrierError:
+        self.off = True
+
+
+def check_threaded(ctx, cnt, case):
+  """TreeTransform.new(num_threads=T) ... re-batching to n over a plain iterable.
+
+  case: form 'batch' (rows 0..R-1 -> apply(cb).batch(n)) or 'apply_bs' (input
+  batches of `sizes` rows -> apply(cb, batch_size=n)); threads T (1..3); src in
+  {'iter', 'list', 'gen'}; sync in {'barrier', 'sleep'}.
+  Demanded (row order across threads is NOT): every emitted batch but the last has
+  exactly n rows, the last has 1..n rows, the rows are conserved as a multiset.
+  """
+  from ml_metrics._src.chainables import transform
+  form, n, threads = case['form'], case['n'], case['threads']
+  if form == 'batch':
+    items = list(range(case['rows']))
+    total = case['rows']
+  else:
+    items, total = [], 0
+    for sz in case['sizes']:
+      items.append(list(range(total, total + sz)))
+      total += sz
+  ctx.case(('threaded', form, case.get('rows'), tuple(case.get('sizes', ())), n, threads,
+            case['src'], case['sync']), total > n and threads >= 2)
+  rounds = _Rounds(case['sync'], threads, len(items))
+  if form == 'batch':
+    def cb(x):
+      rounds(x)
+      return x
+    t = transform.TreeTransform.new(num_threads=threads).apply(fn=cb).batch(n)
+  else:
+    index_of = {b[0]: i for i, b in enumerate(items)}
+    def cb(column):
+      rounds(index_of[column[0]])
+      return column
+    t = transform.TreeTransform.new(num_threads=threads).apply(fn=cb, batch_size=n)
+  src = case['src']
+  source = items if src == 'list' else iter(items) if src == 'iter' else (x for x in items)
+  in_class = threads >= 2
+  cnt.add('threaded_checks')
+  if in_class:
+    cnt.add('threaded_multi_worker_checks')
+  try:
+    out = [_tolist(o) for o in t.make().iterate(source)]
+  except Exception as e:  # pylint: disable=broad-exception-caught
+    _violation(ctx, 'raised', case, {'error': f'{type(e).__name__}: {e}'[:400]},
+               'threaded:raised')
+    return
+  if len(rounds.workers) >= 2:
+    cnt.add('threaded_two_workers_seen')
+  lens = [len(o) for o in out]
+  flat = sorted(v for o in out for v in o)
+  detail = {'sizes': lens[:30], 'want_sizes': _chunks(total, n), 'workers': len(rounds.workers),
+            'out': repr(out)[:300]}
+  cnt.add('size_checks')
+  if flat != list(range(total)):
+    _violation(ctx, 'rows_not_conserved', case, detail, 'threaded:rows_not_conserved')
+  elif any(l == 0 for l in lens):
+    _violation(ctx, 'empty_batch', case, detail, 'threaded:empty_batch')
+  elif any(l > n for l in lens):
+    _violation(ctx, 'final_batch_too_large' if all(l <= n for l in lens[:-1])
+               else 'non_final_batch_size', case, detail, 'threaded:batch_too_large')
+  elif any(l != n for l in lens[:-1]):
+    # Short batches before the last one while nothing is lost: with >= 2 worker
+    # threads this is what private per-thread re-batching buffers produce.
+    _violation(ctx, 'non_final_batch_size', case, detail,
+               MECH_THREADS if in_class else 'threaded:single-worker-short-batch')
+
+
+def _run_threaded_sweep(ctx, cnt, spec):
+  threads = spec['threads']
+  for rows in range(0, spec['rows_max'] + 1):
+    for n in range(1, spec['n_max'] + 1):
+      r = rows + n + threads
+      check_threaded(ctx, cnt, {'api': 'threaded', 'form': 'batch', 'rows': rows, 'n': n,
+                                'threads': threads, 'src': ('iter', 'list', 'gen')[r % 3],
+                                'sync': 'barrier'})
+  for sizes in itertools.chain.from_iterable(
+      itertools.product((1, 2, 3), repeat=k) for k in (1, 2, 3, 4)):
+    for n in (2, 3, 4):
+      if (sum(sizes) + n) % 3 == threads % 3:
+        check_threaded(ctx, cnt, {'api': 'threaded', 'form': 'apply_bs',
+                                  'sizes': list(sizes), 'n': n, 'threads': threads,
+                                  'src': 'iter', 'sync': 'barrier'})
+
+
+def _run_threaded_random(ctx, cnt, spec):
+  rng = random.Random(spec['rseed'] * 2750159 + spec['index'] * 5800079 + 7)
+  for _ in range(spec['count']):
+    case = {'api': 'threaded', 'n': rng.randint(1, 6), 'threads': rng.randint(1, 3),
+            'src': rng.choice(['iter', 'list', 'gen']),
+            'sync': rng.choice(['barrier', 'barrier', 'sleep'])}
+    if rng.random() < 0.5:
+      case.update(form='batch', rows=rng.randint(0, 24))
+    else:
+      case.update(form='apply_bs',
+                  sizes=[rng.randint(1, 5) for _ in range(rng.randint(0, 10))])
+    check_threaded(ctx, cnt, case)
+
+
+# ---------------------------------------------------------------------------
+# iter_utils.iterate_fn(fn, multithread=True): rows must stay attached to rows
+# ---------------------------------------------------------------------------
+
+
+def check_iterate_fn(ctx, cnt, case):
+  """case: rows R, delays (ms per row), multithread, nin (1|2), nout (1|2), form.
+
+  The wrapped fn works on one row; wrapped(columns) must return, per output
+  column, [fn(row 0), fn(row 1), ...] in input order - the same as with
+  multithread=False - whatever order the per-row calls complete in.
+  """
+  import time
+  from ml_metrics._src.utils import iter_utils
+  from ml_metrics._src.chainables import transform
+  rows, delays, mt = case['rows'], case['delays'], case['multithread']
+  nin, nout, form = case['nin'], case['nout'], case['form']
+  ctx.case(('iterate_fn', rows, tuple(delays), mt, nin, nout, form), rows >= 2 and mt)
+  inverted = any(delays[i] > delays[i + 1] for i in range(rows - 1))
+
+  def pure(x, y=None):
+    v = x + OFFSET + (0 if y is None else (y - M - x))   # y - M - x == 0 when aligned
+    return v if nout == 1 else (v, x + 2 * OFFSET)
+
+  def slow(x, y=None):
+    time.sleep(delays[x] / 1000.0)
+    return pure(x, y)
+
+  cols = [list(range(M * c, M * c + rows)) for c in range(nin)]
+  want_rows = [pure(*(col[i] for col in cols)) for i in range(rows)]
+  if nout == 1:
+    want = want_rows
+  else:
+    want = tuple(zip(*want_rows))
+  cnt.add('iterate_fn_checks')
+  if mt:
+    cnt.add('iterate_fn_multithread_checks')
+    if inverted:
+      cnt.add('iterate_fn_inverted_completion_checks')
+  try:
+    serial = iter_utils.iterate_fn(pure)(*cols)
+    wrapped = iter_utils.iterate_fn(slow, multithread=mt)
+    if form == 'direct':
+      got = wrapped(*cols)
+    elif form == 'kwargs':
+      got = wrapped(cols[0], **({'y': cols[1]} if nin == 2 else {}))
+    else:
+      t = transform.TreeTransform().assign(
+          'out' if nout == 1 else ('out', 'out2'), fn=wrapped,
+          input_keys='k0' if nin == 1 else ('k0', 'k1'))
+      res = t.make()({f'k{c}': cols[c] for c in range(nin)})
+      if [res.get(f'k{c}') for c in range(nin)] != cols:
+        _violation(ctx, 'input_mutated', case, {'got': repr(res)[:300]},
+                   'iterate-fn:assign-inputs-changed')
+        return
+      got = res['out'] if nout == 1 else (res['out'], res['out2'])
+  except Exception as e:  # pylint: disable=broad-exception-caught
+    _violation(ctx, 'raised', case, {'error': f'{type(e).__name__}: {e}'[:400]},
+               'iterate-fn:raised')
+    return
+  if serial != want:
+    _violation(ctx, 'iterate_fn_serial_differs', case,
+               {'got': repr(serial)[:300], 'want': repr(want)[:300]},
+               'iterate-fn:serial-differs-from-oracle')
+    return
+  cnt.add('alignment_checks')
+  if got == want:
+    return
+  try:
+    got_rows = list(got) if nout == 1 else list(zip(*got))
+    permuted = sorted(got_rows) == sorted(want_rows) and len(got_rows) == rows
+  except Exception:  # pylint: disable=broad-exception-caught
+    permuted = False
+  mech = MECH_ITERATE_FN if (mt and permuted) else 'iterate-fn:result-differs'
+  _violation(ctx, 'rows_misaligned' if permuted else 'output_differs', case,
+             {'got': repr(got)[:300], 'want': repr(want)[:300],
+              'serial (multithread=False)': repr(serial)[:300]}, mech)
+
+
+def _run_iterate_fn(ctx, cnt, spec):
+  rng = random.Random(spec['rseed'] * 1299709 + spec['index'] * 3497861 + 13)
+  for j in range(spec['count']):
+    rows = rng.choice([1, 2, 3, 4, 5, 6, 8]) if j % 8 else rng.randint(2, 6)
+    order = list(range(rows))
+    r = rng.random()
+    if r < 0.5:
+      rng.shuffle(order)          # random completion order
+    elif r < 0.8:
+      order.reverse()             # first row completes last
+    unit = rng.choice([2, 3])
+    delays = [0] * rows
+    for rank, i in enumerate(order):
+      delays[i] = rank * unit
+    check_iterate_fn(ctx, cnt, {
+        'api': 'iterate_fn', 'rows': rows, 'delays': delays,
+        'multithread': rng.random() < 0.85, 'nin': rng.randint(1, 2),
+        'nout': rng.randint(1, 2), 'form': rng.choice(['direct', 'kwargs', 'assign'])})
+
+
 # ---------------------------------------------------------------------------
 # Ragged input (columns of one input tuple with unequal lengths)
 # ---------------------------------------------------------------------------
@@ -789,6 +1248,27 @@ def plan(tier, seed):
   if thorough:
     specs.append({'mode': 'ragged_sweep', 'lmax': 4, 'ntup': 3,
                   'targets': list(range(1, 14))})
+  # several outputs into one output key (default SELF / one named key)
+  msmax, mmaxlen = (4, 4) if thorough else (3, 3)
+  multi = [{'mode': 'multi', 'prefix': None, 'smax': msmax, 'maxlen': mmaxlen}]
+  for p in range(msmax + 1):
+    multi.append({'mode': 'multi', 'prefix': [p], 'smax': msmax, 'maxlen': mmaxlen})
+  # threaded re-batching over a plain iterable, iterate_fn(multithread=True)
+  threaded = [{'mode': 'threaded', 'threads': t, 'rows_max': 24 if thorough else 9,
+               'n_max': 6 if thorough else 4} for t in (1, 2, 3)]
+  nthr = 12 if thorough else 2
+  for i in range(nthr):
+    multi.append({'mode': 'multi_random', 'rseed': seed, 'index': i,
+                  'count': 4000 if thorough else 400})
+    threaded.append({'mode': 'threaded_random', 'rseed': seed, 'index': i,
+                     'count': 1500 if thorough else 120})
+    threaded.append({'mode': 'iterate_fn', 'rseed': seed, 'index': i,
+                     'count': 1500 if thorough else 100})
+  # Started first: the sleeping / barrier cases need wall time, not CPU, and the
+  # first witnesses of a run then cover every widened input class.
+  first = [threaded[1], threaded[-1], multi[2]]
+  rest = [x for x in threaded + multi if not any(x is f for f in first)]
+  specs = first + rest + specs
   nrand = 48 if thorough else 4
   for i in range(nrand):
     specs.append({'mode': 'ragged_random', 'rseed': seed, 'index': i,
@@ -824,6 +1304,16 @@ def run_chunk(ctx, spec):
       _run_direct_random(ctx, cnt, spec)
     elif mode == 'pipe_random':
       _run_pipe_random(ctx, cnt, spec)
+    elif mode == 'multi':
+      _run_multi_sweep(ctx, cnt, spec)
+    elif mode == 'multi_random':
+      _run_multi_random(ctx, cnt, spec)
+    elif mode == 'threaded':
+      _run_threaded_sweep(ctx, cnt, spec)
+    elif mode == 'threaded_random':
+      _run_threaded_random(ctx, cnt, spec)
+    elif mode == 'iterate_fn':
+      _run_iterate_fn(ctx, cnt, spec)
     elif mode == 'ragged_sweep':
       _run_ragged_sweep(ctx, cnt, spec)
     elif mode == 'ragged_random':
@@ -848,6 +1338,12 @@ def run_case(ctx, case):
       check_rowchange(ctx, cnt, case)
     elif api == 'ragged':
       check_ragged(ctx, cnt, case)
+    elif api == 'multi_out':
+      check_multi_out(ctx, cnt, case)
+    elif api == 'threaded':
+      check_threaded(ctx, cnt, case)
+    elif api == 'iterate_fn':
+      check_iterate_fn(ctx, cnt, case)
     else:
       check_pipeline(ctx, cnt, case)
   finally:
